@@ -31,7 +31,7 @@
     (v) shape/frame lemmas of the other operations. *)
 From DV Require Import Model.Base Model.NameCheck Model.Parser Model.Header Model.Readers Model.Uncompress
   Model.Mutate Model.Compress Model.Renamer Spec.PacketSpec Spec.RecordSpec Spec.PlainSpec Proofs.Hoare Proofs.HeaderBits Proofs.InsertLemmas Proofs.EdnsPlain Proofs.WalkSkip
-  Proofs.ViewAfter Proofs.InsertSpec Proofs.HeaderInv.
+  Proofs.PlainWf Proofs.ViewAfter Proofs.InsertSpec Proofs.HeaderInv Proofs.CursorHist.
 
 Theorem C08_decompression_keeps_edns_summary : forall p v q v',
   bytes_ok p -> parse p = Ok v -> uncompress p = Ok q -> parse q = Ok v' ->
@@ -135,6 +135,47 @@ Theorem C08_histories_total : forall ops v it, dinv v -> is_response (pp_packet 
   exists s', run_hops2_tol ops (v, it) = (s', Ok tt) /\ dinv (fst s') /\ snd s' = it /\ is_response (pp_packet (fst s')).
 Proof. exact hops2_tol_total. Qed.
 Print Assumptions C08_histories_total.
+
+(** histories that also delete non-OPT records and change their TTLs through a cursor put on the record with the iterator's own
+    set_offset and recompute (Proofs/CursorHist.v): every operation applicable where it is applied ([ok_along]) *)
+Theorem C08_histories_with_cursor : forall ops v it s', dinv v -> is_response (pp_packet v) -> it_section it <> SQuestion ->
+  ok_along ops (v, it) -> run_hops3 ops (v, it) = (s', Ok tt) -> dinv (fst s') /\ snd s' = it /\ is_response (pp_packet (fst s')).
+Proof. exact hops3_keep_dinv. Qed.
+Print Assumptions C08_histories_with_cursor.
+
+Example C08_cursor_history_vocabulary :
+  (forall o, run_hop3 o = match o with
+                          | H3Base o => run_hop2 o
+                          | H3Delete off => with_cursor off m_delete
+                          | H3SetTtl off t => with_cursor off (m_set_ttl t)
+                          end) /\
+  (forall off m s, with_cursor off m s = let '(s1, r) := ((m_set_offset off ;;- m_recompute_rr) ;;- m) s in ((fst s1, snd s), r)) /\
+  (forall v o, hop3_ok_at v o = match o with
+                                | H3Base o => hop2_ok o
+                                | H3Delete off => record_starts v off
+                                | H3SetTtl off t => record_starts v off /\ (t < 4294967296)%N
+                                end) /\
+  (forall v off, record_starts v off <->
+     exists qls qt lA lN lR r x, reading (pp_packet v) qls qt lA lN lR /\ In (r, x) (lA ++ lN ++ lR) /\ is_opt r = false /\ rv_off r = off) /\
+  (forall o ops s, ok_along (o :: ops) s = (hop3_ok_at (fst s) o /\ match run_hop3 o s with (s1, Ok _) => ok_along ops s1 | _ => True end)).
+Proof. split; [intros []; reflexivity|]. split; [reflexivity|]. split; [intros v []; reflexivity|]. split; [reflexivity|reflexivity]. Qed.
+
+(** such a history runs: decompress, delete the second answer, change the TTL of the first, delete it - the answer section ends absent *)
+Definition c08_two_answers : bytes :=
+  [0;7; 129;128; 0;1; 0;2; 0;0; 0;0;  1;97;0; 0;1; 0;1;  192;12; 0;1; 0;1; 0;0;0;9; 0;4; 1;2;3;4;  192;12; 0;1; 0;1; 0;0;0;9; 0;4; 5;6;7;8]%N.
+Definition c08_cursor : rrit := {| it_section := SAnswer; it_offset := None; it_offset_next := 0; it_name_end := 0; it_rrs_left := 0 |}.
+Example C08_cursor_history_runs :
+  match parse c08_two_answers with
+  | Ok v => let '(s, r) := run_hops3 [H3Base H2Recompute; H3Delete 36; H3SetTtl 19 77%N] (v, c08_cursor) in
+            (pp_packet (fst s), pp_offset_answers (fst s), r)
+  | _ => ([], None, Err InvalidPacket)
+  end = ([0;7; 129;128; 0;1; 0;1; 0;0; 0;0;  1;97;0; 0;1; 0;1;  1;97;0; 0;1; 0;1; 0;0;0;77; 0;4; 1;2;3;4]%N, Some 19, Ok tt) /\
+  match parse c08_two_answers with
+  | Ok v => let '(s, r) := run_hops3 [H3Base H2Recompute; H3Delete 36; H3SetTtl 19 77%N; H3Delete 19] (v, c08_cursor) in
+            (pp_packet (fst s), pp_offset_answers (fst s), r)
+  | _ => ([], None, Err InvalidPacket)
+  end = ([0;7; 129;128; 0;1; 0;0; 0;0; 0;0;  1;97;0; 0;1; 0;1]%N, None, Ok tt).
+Proof. split; vm_compute; reflexivity. Qed.
 
 Example C08_tolerant_run_means : forall o ops s, run_hops2_tol (o :: ops) s =
   match run_hop2 o s with (s1, Ok _) => run_hops2_tol ops s1 | (s1, Err _) => run_hops2_tol ops s1 | (s1, Panic x) => (s1, Panic x) end.
